@@ -395,7 +395,7 @@ func randScalarPB(r *rand.Rand, k protoreflect.Kind, maxStr int) protoreflect.Va
 		if r.Intn(2) == 0 {
 			return protoreflect.ValueOfFloat32(fs[r.Intn(len(fs))])
 		}
-		return protoreflect.ValueOfFloat32(math.Float32frombits(r.Uint32()))
+		return protoreflect.ValueOfFloat32(math.Float32frombits(quietF32(r.Uint32())))
 	case protoreflect.DoubleKind:
 		if r.Intn(2) == 0 {
 			return protoreflect.ValueOfFloat64(math.Float64frombits(dblSpecials[r.Intn(len(dblSpecials))]))
